@@ -525,3 +525,12 @@ package mcp
 //@   ensures @reply-exactly-when-this-batch-is-complete result.1 ==> ((len(result.0) > 0 || result.0 != nil) <==> len(old(t.batches[resp.ID]).unresolved) == 0)
 //@   ensures @complete-reply-is-the-batch result.1 && len(old(t.batches[resp.ID]).unresolved) == 0 ==> result.0 == old(t.batches[resp.ID]).responses
 //@   ensures @other-ids-untouched forall id jsonrpc2.ID :: {inDom(t.batches, id)} id != resp.ID ==> (id in t.batches) == old(id in t.batches) && t.batches[id] == old(t.batches[id])
+
+// Read: when a batch arrives, exactly the calls in it (requests carrying an id) are tracked for the batch reply;
+// notifications never are (they get no response, so tracking one would withhold the reply for ever).
+//@ func (*ioConn).Read [C02]
+//@   modifies *
+//@   requires t != nil
+//@   assert at call addBatch: @only-calls-are-tracked forall id jsonrpc2.ID :: {inDom($1.unresolved, id)} id in $1.unresolved ==> id.value != nil
+//@   loop 1: invariant @only-calls-are-tracked local(respBatch) != nil ==> local(respBatch).unresolved != nil
+//@        && (forall id jsonrpc2.ID :: {inDom(local(respBatch).unresolved, id)} id in local(respBatch).unresolved ==> id.value != nil)
